@@ -115,6 +115,7 @@ def run(ctx):
     ctx.do(rule_markings_normalised)
     ctx.do(rule_kind_options_separable)
     ctx.do(rule_object_level_add_is_idempotent)
+    ctx.do(rule_marking_identifiers_as_given)
     # whether a selector addresses something is decided by the walk of the object: the same walk rules as C08
     from . import C08
     ctx.do(C08.rule_truthiness, rule_id="C07.validate-first")
@@ -655,3 +656,30 @@ def rule_object_level_add_is_idempotent(ctx, R="C07.normal-form"):
               "the new object_marking_refs is not built as a set of the old and the added references: adding a marking the object "
               "already carries lists it twice -- adding is not idempotent", file=fi.module.relpath, line=calls[0].lineno,
               function=fi.qualname, expected="set(<old> + <added>)", found=short(kw[0].value, 80))
+
+
+def rule_marking_identifiers_as_given(ctx, R="C07.query-siblings"):
+    """A marking is identified by its reference / language tag AS GIVEN: the helpers that turn the `marking` argument into a list
+    of identifiers hand back the caller's strings (or the id of a marking-definition object), never a rewritten spelling.
+    get_markings() reports what is stored; if add / remove / is_marked work on a case-folded or stripped spelling, 'en-US' is
+    added as 'en-us', and parsed content carrying 'en-US' is reported by get_markings but denied by is_marked.  No return value
+    of the identifier helpers in markings/utils.py derives from a text-rewriting call."""
+    from .C01 import _TEXT_REWRITERS
+    run = ctx.run
+    prog = ctx.prog
+    n = 0
+    for name in ("_get_marking_id", "convert_to_marking_list", "convert_to_list"):
+        fi = prog.func("stix2.markings.utils::%s" % name)
+        fl = flow_of(fi)
+        used = set()
+        for r in returns_of(fi):
+            if r.value is not None:
+                used |= fl.prov(r.value).calls & set(_TEXT_REWRITERS)
+        # values appended to / comprehended into the returned list flow through the accumulator provenance as well
+        n += 1
+        run.check(not used, R, key(fi.module.relpath, fi.qualname, "identifiers-as-given"),
+                  "a marking identifier is rewritten (%s) on its way into the marking functions: what is added / tested / removed "
+                  "is another spelling than what is stored and reported" % ", ".join(sorted(used)), file=fi.module.relpath,
+                  line=fi.node.lineno, function=fi.qualname, expected="the caller's string, or <marking definition>['id']", found=sorted(used))
+    if n < 3:
+        raise AnalysisError("identifier helpers of markings/utils.py not found")
